@@ -95,6 +95,16 @@ def gen_program(rng, features=None, n_nodes=None, n_modules=None):
                 if tj["kind"] == "memento" and nd["explicit"] is None and r > 1 - F.get("p_hidden", 0.1):
                     form = "hidden"
                 nd["calls"].append({"to": j, "form": form})
+    # mutual recursion: a back edge j -> i (i < j, same module) closes a cycle through the forward edges; it passes
+    # x - 1 and is taken only while x > 0, so every cycle terminates (forward edges pass x unchanged)
+    if rng.random() < F.get("p_back", 0.3):
+        for _ in range(rng.choice([1, 1, 2])):
+            cands = [(b["id"], a["id"]) for a in nodes for b in nodes
+                     if b["id"] > a["id"] and b["module"] == a["module"] and not b.get("frozen") and not a.get("frozen")
+                     and not any(c["to"] == a["id"] for c in b["calls"])]
+            if cands:
+                j, i = cands[rng.randrange(len(cands))]
+                nodes[j]["calls"].append({"to": i, "form": "bare", "back": True})
     # a memento function may receive another memento function as an argument and call it (legal), and may in
     # addition reach the same function through a hidden dynamic call (legal only when it was passed)
     for nd in nodes:
@@ -202,6 +212,8 @@ def render_wrapped(prog, callee):
 
 
 def call_expr(prog, nd, c):
+    if c.get("back"):
+        return "(%s if x > 0 else None)" % call_expr(prog, nd, dict(c, back=False)).replace("(x)", "(x - 1)")
     t = prog["nodes"][c["to"]]
     if c["form"] == "bare":
         return "%s(x)" % t["name"]
@@ -394,7 +406,10 @@ def evaluate(prog, nid, x, y=None, depth=0, fnargs=None):
     for gid in nd["globals"]:
         out.append(copy.deepcopy(prog["globals"][gid]["value"]))
     for c in nd["calls"]:
-        out.append(evaluate(prog, c["to"], x, depth=depth + 1))
+        if c.get("back"):
+            out.append(evaluate(prog, c["to"], x - 1, depth=depth + 1) if x > 0 else None)
+        else:
+            out.append(evaluate(prog, c["to"], x, depth=depth + 1))
     for j in nd.get("fparams") or []:
         out.append(evaluate(prog, j, x, depth=depth + 1) if fnargs and j in fnargs else None)
     if nd.get("builtin"):
@@ -469,12 +484,14 @@ def expected_outcome(prog, nid, x, fnargs=None):
             return False
         for c in nd["calls"]:
             t = prog["nodes"][c["to"]]
+            if c.get("back") and xx <= 0:
+                continue
             if t["kind"] == "memento" and frame is not None:
                 fr = prog["nodes"][frame]
                 passed = bool(fnargs) and outer and c["to"] in fnargs
                 if fr["explicit"] is None and c["to"] != frame and c["to"] not in closure_memento(prog, frame) and not passed:
                     return True
-            if walk(c["to"], xx, frame, depth + 1, outer):
+            if walk(c["to"], xx - 1 if c.get("back") else xx, frame, depth + 1, outer):
                 return True
         if outer and fnargs and j == nid:
             for pj in nd.get("fparams") or []:
